@@ -356,6 +356,11 @@ func rootsFor(prop, tier string) []Root {
 			add("VH_C19_MariaAdd", n)
 			add("VH_C19_MariaContains", n)
 		}
+	case "C20":
+		for sh := 0; sh < 5; sh++ {
+			rs = append(rs, Root{Prop: prop, Harness: "VH_C20_Marshal", Params: []int{sh}, MaxDecs: 4000})
+		}
+		add("VH_C20_Names")
 	case "C17":
 		rs = append(rs, Root{Prop: prop, Harness: "VH_C17_Gate", Params: []int{1}, MaxDecs: 2000})
 		rs = append(rs, Root{Prop: prop, Harness: "VH_C17_Gate", Params: []int{2}, MaxDecs: 2000})
